@@ -119,7 +119,7 @@ Proof.
     + intros p. destruct (N.eq_dec p0 p) as [E|E].
       * subst p0. rewrite ps_get_del_same. constructor.
       * rewrite (ps_get_del_other _ _ _ E). apply Hn.
-  - destruct (st_reader st) as [|rq|rq i ss|rq i ss r0] eqn:Epc; try discriminate.
+  - destruct (st_reader st) as [|rq|rq i ss|rq i ss r0|rq i ss r0] eqn:Epc; try discriminate.
     + destruct (st_pending st <? c_limit cfg); [|discriminate].
       unfold reader_top in H. simpl in H.
       set (p := r_peer rq) in *. set (sid := r_sid rq) in *.
@@ -188,9 +188,10 @@ Proof.
         -- apply key_eqb_eq in E. subst k. rewrite get_put_same, Hpc. split; discriminate.
         -- rewrite get_put_other; [tauto|]. intros E'. subst k. rewrite key_eqb_refl in E. discriminate.
       * apply (psinv_same st); simpl; auto; tauto.
+    + unfold reader_add in H. destruct (st_pending st <? c_limit cfg); [|discriminate].
+      inversion H; subst. apply (psinv_same st); simpl; auto; tauto.
     + unfold reader_send in H.
-      destruct ((st_pending st <? c_limit cfg) &&
-                (N.of_nat (length (nth (s_sender ss) (st_senders st) [])) <=? c_maxtasks cfg) &&
+      destruct ((N.of_nat (length (nth (s_sender ss) (st_senders st) [])) <=? c_maxtasks cfg) &&
                 (Nat.ltb (s_sender ss) (length (st_senders st)))); [|discriminate].
       inversion H; subst. apply (psinv_same st); simpl; auto; tauto.
   - destruct (nth i (st_senders st) []) as [|r0 q] eqn:En; [discriminate|].
@@ -265,7 +266,7 @@ Proof.
     inversion H; subst. destruct (N.eq_dec (fst key) p0) as [E|E].
     + right. left. subst p0. left. reflexivity.
     + left. exists ss. simpl. rewrite get_del_all_other by exact E. auto.
-  - destruct (st_reader st) as [|rq|rq i s0|rq i s0 r0] eqn:Epc; try discriminate.
+  - destruct (st_reader st) as [|rq|rq i s0|rq i s0 r0|rq i s0 r0] eqn:Epc; try discriminate.
     + destruct (st_pending st <? c_limit cfg); [|discriminate].
       unfold reader_top in H. simpl in H.
       set (p := r_peer rq) in *. set (sid := r_sid rq) in *.
@@ -295,9 +296,10 @@ Proof.
            simpl. rewrite Hpc in Hg. inversion Hg; subst. auto.
         -- exists ss. rewrite get_put_other; [auto|]. intros E'. subst key. rewrite key_eqb_refl in E. discriminate.
       * left. exists ss. simpl. auto.
+    + unfold reader_add in H. destruct (st_pending st <? c_limit cfg); [|discriminate].
+      inversion H; subst. left. apply Hkeep. reflexivity.
     + unfold reader_send in H.
-      destruct ((st_pending st <? c_limit cfg) &&
-                (N.of_nat (length (nth (s_sender s0) (st_senders st) [])) <=? c_maxtasks cfg) &&
+      destruct ((N.of_nat (length (nth (s_sender s0) (st_senders st) [])) <=? c_maxtasks cfg) &&
                 (Nat.ltb (s_sender s0) (length (st_senders st)))); [|discriminate].
       inversion H; subst. left. apply Hkeep. reflexivity.
   - destruct (nth i (st_senders st) []) as [|r0 q] eqn:En; [discriminate|].
